@@ -289,6 +289,25 @@ def handleRenorm (j : Json) : Except String Json := do
       | none => Json.null
       | some ts => Json.arr (ts.map tripleJson).toArray).toArray)]
 
+def ratJson (r : Rat) : Json := Json.arr #[Json.num (JsonNumber.fromInt r.num), Json.num (JsonNumber.fromNat r.den)]
+
+/-- `physics`: the helper functions of naunet_physics.cpp on an exact abundance vector -/
+def handlePhysics (j : Json) : Except String Json := do
+  let species ← (← (← j.getObjVal? "species").getArr?).toList.mapM fun s => do
+    let cs ← natList (← s.getObjVal? "counts")
+    let m ← (← s.getObjVal? "mass").getNat?
+    pure (Physics.Sp.mk m cs)
+  let y ← (← (← j.getObjVal? "y").getArr?).toList.mapM fun v => do
+    let n ← (← v.getArrVal? 0).getInt?
+    let d ← (← v.getArrVal? 1).getNat?
+    pure ((n : Rat) / (d : Rat))
+  let nelem ← (← j.getObjVal? "nelem").getNat?
+  let n := Physics.numDens species.length y
+  pure <| Json.mkObj [
+    ("numdens", ratJson n),
+    ("mu", if n == 0 then Json.null else ratJson (Physics.mu species y)),
+    ("elem", Json.arr ((List.range nelem).map fun e => ratJson (Physics.elementAbund species e y)).toArray)]
+
 def handleSymVerdict (j : Json) : Except String Json := do
   let comps ← (← (← j.getObjVal? "comps").getArr?).toList.mapM fun c => do
     (← c.getArr?).toList.mapM fun v => do
@@ -385,6 +404,7 @@ def handle (line : String) : String :=
       | "kromefile" => handleKromeFile j
       | "species" => handleSpecies j
       | "renorm" => handleRenorm j
+      | "physics" => handlePhysics j
       | "symverdict" => handleSymVerdict j
       | "ftoc" => handleFtoC j
       | "parseopts" => handleParseOpts j
